@@ -69,7 +69,11 @@ def from_yaml_all(f: FileOrPath, ty: t.Type[T], *,
     with open_file(f) as f:
         obj = t.cast(t.List[t.Any], list(yaml.load_all(f, Loader)))  # type: ignore
 
-    return from_data(obj, t.List[ty], custom=custom)
+    # a list of `ty` (built directly: `ty` may be a struct or tuple type, which `t.List[ty]` would mangle or refuse)
+    from .convert import ConverterHandlers
+    from .converters import SequenceConverter
+    converter = SequenceConverter(list, t.cast(t.Type[t.Any], ty), handlers=ConverterHandlers.make(custom))
+    return t.cast(t.List[T], converter.convert(obj))
 
 
 def write_json(obj: Convertible, f: FileOrPath, *,
